@@ -4,6 +4,7 @@ import (
 	"encoding/json"
 	"errors"
 	"fmt"
+	"math"
 	"os"
 	"path/filepath"
 	"sync"
@@ -148,8 +149,10 @@ func (c *Config) Validate() error {
 		return fmt.Errorf("%w: Compaction levels must be positive", ErrInvalidConfig)
 	}
 
-	if c.CompactionRatio <= 1.0 {
-		return fmt.Errorf("%w: Compaction ratio must be greater than 1.0", ErrInvalidConfig)
+	// NaN fails every comparison and an infinite ratio cannot be written to
+	// the manifest, so only a finite number above 1.0 is accepted
+	if math.IsNaN(c.CompactionRatio) || math.IsInf(c.CompactionRatio, 0) || c.CompactionRatio <= 1.0 {
+		return fmt.Errorf("%w: Compaction ratio must be a finite number greater than 1.0", ErrInvalidConfig)
 	}
 
 	// Validate Transaction settings
